@@ -607,7 +607,163 @@ pub fn c15(ctx: &mut Ctx) {
         if i % 199 == 0 { ctx.sample(&format!("{:?}  ON  {}", h.log, crate::util::truncate(&h.text, 200))); }
     }
 }
-pub fn c16(_: &mut Ctx) {}
+// ---------------------------------------------------------------------------------------------
+// C16: character-data operations on character offsets (Vec<char> model, lock-step)
+
+const C16_CONTENTS: &[&str] = &["", "a", "hello", "\u{e9}", "h\u{1d4b3}y", "e\u{301}x", "ab cd", "\u{1d4b3}\u{1d4b3}\u{1d4b3}"];
+const C16_ARGS: &[&str] = &["", "Z", "\u{e9}\u{1d4b3}"];
+const C16_PLACEMENTS: &[&str] = &["text/attached", "comment/attached", "cdata/attached", "text/in-attribute", "text/detached", "comment/detached", "cdata/detached"];
+
+fn off_class(off: usize, len: usize) -> &'static str { if off > len + 2 { "huge" } else if off > len { "past-end" } else if off == len { "at-end" } else { "inside" } }
+fn count_class(off: usize, count: usize, len: usize) -> &'static str { if count > len + 2 { "huge" } else if count == 0 { "zero" } else if off <= len && count > len - off { "past-end" } else if off <= len && count == len - off { "to-end" } else { "inside" } }
+
+/// build the node under test; returns (history, pool index of the node)
+fn c16_setup(content: &str, placement: &str) -> Option<(Hist, usize)> {
+    let text = "<r a='x'><e/><f>t</f></r>".to_string();
+    let d = live_doc(&text).ok()?;
+    let mut h = Hist { pool: Pool::new(vec![d.dom.clone()]), docs: vec![d], text, log: vec![] };
+    let (kind, place) = placement.split_once('/')?;
+    let create = match kind { "text" => Op::CreateText { d: 0, data: content.to_string() }, "comment" => Op::CreateComment { d: 0, data: content.to_string() }, _ => Op::CreateCData { d: 0, data: content.to_string() } };
+    let n = match h.pool.apply(&create) { Outcome::Ok(Ret::Node(x)) => x.idx, _ => return None };
+    let e = (0..h.pool.h.len()).find(|&i| h.pool.h[i].kind == K::Element && h.pool.h[i].node.node_name() == "e")?;
+    match place {
+        "attached" => { if !matches!(h.pool.apply(&Op::AppendChild { p: e, c: n }), Outcome::Ok(_)) { return None; } }
+        "in-attribute" => { let a = (0..h.pool.h.len()).find(|&i| h.pool.h[i].kind == K::Attr)?; if !matches!(h.pool.apply(&Op::AppendChild { p: a, c: n }), Outcome::Ok(_)) { return None; } }
+        _ => {}
+    }
+    Some((h, n))
+}
+
+/// one call against the Vec<char> model. Returns Some((what, detail)) on disagreement; updates `model` on success.
+fn c16_call(h: &mut Hist, n: usize, op: &Op, model: &mut Vec<char>, attached: bool) -> Option<(String, String)> {
+    let len = model.len();
+    let before_real = h.pool.data_of(n);
+    let clip = |off: usize, count: usize| -> usize { off.saturating_add(count).min(len) };
+    // expected outcome
+    enum X { Err, Unit(Vec<char>), Str(String), Num(usize), Split(Vec<char>, Vec<char>), Either }
+    let exp = match op {
+        Op::Length { .. } => X::Num(len),
+        Op::SubstringData { off, count, .. } => if *off > len { X::Err } else { X::Str(model[*off..clip(*off, *count)].iter().collect()) },
+        Op::AppendData { data, .. } => { let mut m = model.clone(); m.extend(data.chars()); X::Unit(m) }
+        Op::SetData { data, .. } => X::Unit(data.chars().collect()),
+        Op::InsertData { off, data, .. } => if *off > len { X::Err } else { let mut m: Vec<char> = model[..*off].to_vec(); m.extend(data.chars()); m.extend(model[*off..].iter()); X::Unit(m) },
+        Op::DeleteData { off, count, .. } => if *off > len { X::Err } else { let mut m: Vec<char> = model[..*off].to_vec(); m.extend(model[clip(*off, *count)..].iter()); X::Unit(m) },
+        Op::ReplaceData { off, count, data, .. } => if *off > len { X::Err } else { let mut m: Vec<char> = model[..*off].to_vec(); m.extend(data.chars()); m.extend(model[clip(*off, *count)..].iter()); X::Unit(m) },
+        Op::SplitText { off, .. } => if *off > len { X::Err } else if !attached { X::Either } else { X::Split(model[..*off].to_vec(), model[*off..].to_vec()) },
+        _ => return None,
+    };
+    let out = h.pool.apply(op);
+    let after_real = h.pool.data_of(n);
+    let s = |v: &Vec<char>| -> String { v.iter().collect() };
+    match (exp, out) {
+        (_, Outcome::Panic(p)) => Some(("panic".into(), p)),
+        (X::Err, Outcome::Err(E::IndexSize)) => { if after_real != before_real { Some(("error-changed-data".into(), format!("data {:?} -> {:?}", before_real, after_real))) } else { None } }
+        (X::Err, Outcome::Err(e)) => Some((format!("INDEX_SIZE-expected/{}", e.name()), String::new())),
+        (X::Err, Outcome::Ok(r)) => Some(("INDEX_SIZE-expected/ok".into(), format!("returned {:?}; data now {:?}", r, after_real))),
+        (X::Either, Outcome::Err(_)) => { if after_real != before_real { Some(("error-changed-data".into(), format!("data {:?} -> {:?}", before_real, after_real))) } else { None } }
+        (X::Either, Outcome::Ok(_)) => { *model = after_real.unwrap_or_default().chars().collect(); None }
+        (_, Outcome::Err(e)) => Some((format!("ok-expected/{}", e.name()), format!("data {:?}", after_real))),
+        (X::Num(k), Outcome::Ok(Ret::Num(g))) => if g == k { None } else { Some(("length".into(), format!("length() = {} for {:?} ({} characters)", g, s(model), k))) },
+        (X::Str(w), Outcome::Ok(Ret::Str(g))) => if g == w { None } else { Some(("substring".into(), format!("returned {:?}, expected {:?}", g, w))) },
+        (X::Unit(m), Outcome::Ok(_)) => { let ok = after_real.as_deref() == Some(s(&m).as_str()); let r = if ok { None } else { Some(("data".into(), format!("data is {:?}, expected {:?}", after_real, s(&m)))) }; *model = m; r }
+        (X::Split(a, b), Outcome::Ok(Ret::Node(x))) => {
+            let second = h.pool.data_of(x.idx);
+            let mut problems = vec![];
+            if after_real.as_deref() != Some(s(&a).as_str()) { problems.push(format!("the node keeps {:?}, expected {:?}", after_real, s(&a))); }
+            if second.as_deref() != Some(s(&b).as_str()) { problems.push(format!("the new node holds {:?}, expected {:?}", second, s(&b))); }
+            match h.pool.h[n].node.next_sibling() { Some(nx) if nx.id() == h.pool.h[x.idx].node.id() => {} other => problems.push(format!("the new node is not the next sibling of the original (next sibling id {:?})", other.map(|o| o.id()))) }
+            if kind_of(&h.pool.h[x.idx].node) != kind_of(&h.pool.h[n].node) { problems.push("the new node has another node type".into()); }
+            *model = a;
+            if problems.is_empty() { None } else { Some(("split".into(), problems.join("; "))) }
+        }
+        (_, Outcome::Ok(r)) => Some(("return-kind".into(), format!("{:?}", r))),
+    }
+}
+
+pub fn c16(ctx: &mut Ctx) {
+    let mut idx = 0u64;
+    let specials = |len: usize| -> Vec<usize> { let mut v: Vec<usize> = (0..=len + 2).collect(); v.extend([usize::MAX - 1, usize::MAX, isize::MAX as usize]); v };
+    // (a) exhaustive lattice, every call on a fresh node
+    for content in C16_CONTENTS { for placement in C16_PLACEMENTS {
+        idx += 1;
+        if !ctx.mine(idx) { continue; }
+        ctx.begin(idx, &format!("{:?} {}", content, placement));
+        let len = content.chars().count();
+        let attached = !placement.ends_with("detached");
+        let splittable = !placement.starts_with("comment");
+        let mut calls: Vec<Op> = vec![Op::Length { n: 0 }];
+        for &off in &specials(len) {
+            for &count in &specials(len) { calls.push(Op::SubstringData { n: 0, off, count }); calls.push(Op::DeleteData { n: 0, off, count }); for a in C16_ARGS { calls.push(Op::ReplaceData { n: 0, off, count, data: a.to_string() }); } }
+            for a in C16_ARGS { calls.push(Op::InsertData { n: 0, off, data: a.to_string() }); }
+            if splittable { calls.push(Op::SplitText { n: 0, off }); }
+        }
+        for a in C16_ARGS { calls.push(Op::AppendData { n: 0, data: a.to_string() }); calls.push(Op::SetData { n: 0, data: a.to_string() }); }
+        for call in calls {
+            let (mut h, n) = match c16_setup(content, placement) { Some(x) => x, None => { ctx.inconclusive("setup_failed"); break; } };
+            let op = retarget(&call, n);
+            let mut model: Vec<char> = content.chars().collect();
+            ctx.evaluations += 1;
+            ctx.count(&format!("lattice/{}", op.name()));
+            let desc = h.pool.describe_op(&op);
+            ctx.nontrivial(&format!("{}|{}|{}", content, placement, desc));
+            if let Some((what, detail)) = c16_call(&mut h, n, &op, &mut model, attached) {
+                let (oc, cc) = classes(&op, len);
+                ctx.violation(idx, &format!("C16/chardata/{}/{}/{}/{}", op.name(), oc, cc, what), &format!("{} on {:?} ({}) :: {}", desc, content, placement, detail), &[("content", content), ("placement", placement), ("call", &desc)]);
+            }
+        }
+    } }
+    // (b) random sequences of calls on one node
+    let nseq: u64 = if ctx.thorough { 200_000 } else { 6_000 };
+    for i in 0..nseq {
+        let id = 1_000_000 + i;
+        if !ctx.mine(id) { continue; }
+        let mut r = ctx.rng(id);
+        ctx.begin(id, "");
+        let content = *r.pick(C16_CONTENTS); let placement = *r.pick(C16_PLACEMENTS);
+        let (mut h, n) = match c16_setup(content, placement) { Some(x) => x, None => { ctx.inconclusive("setup_failed"); continue; } };
+        let attached = !placement.ends_with("detached");
+        let mut model: Vec<char> = content.chars().collect();
+        let steps = r.range(2, 12);
+        let mut log = vec![];
+        for _ in 0..steps {
+            let len = model.len();
+            let arg = |r: &mut Rng| r.pick_s(&["", "Z", "\u{e9}\u{1d4b3}", "ab", "e\u{301}"]).to_string();
+            let op = match r.below(8) {
+                0 => Op::Length { n }, 1 => Op::SubstringData { n, off: offset_for(&mut r, len), count: offset_for(&mut r, len) }, 2 => Op::AppendData { n, data: arg(&mut r) },
+                3 => Op::InsertData { n, off: offset_for(&mut r, len), data: arg(&mut r) }, 4 => Op::DeleteData { n, off: offset_for(&mut r, len), count: offset_for(&mut r, len) },
+                5 => Op::ReplaceData { n, off: offset_for(&mut r, len), count: offset_for(&mut r, len), data: arg(&mut r) }, 6 => Op::SetData { n, data: arg(&mut r) },
+                _ => if placement.starts_with("comment") { Op::Length { n } } else { Op::SplitText { n, off: offset_for(&mut r, len) } },
+            };
+            let desc = h.pool.describe_op(&op);
+            log.push(desc.clone());
+            ctx.evaluations += 1;
+            ctx.count(&format!("sequence/{}", op.name()));
+            if let Some((what, detail)) = c16_call(&mut h, n, &op, &mut model, attached) {
+                let (oc, cc) = classes(&op, len);
+                ctx.violation(id, &format!("C16/chardata/{}/{}/{}/{}", op.name(), oc, cc, what), &format!("{} :: sequence {:?} on {:?} ({}) :: {}", desc, log, content, placement, detail), &[("content", content), ("placement", placement), ("call", &log.join("\n"))]);
+                break;
+            }
+        }
+        ctx.nontrivial(&format!("{}|{}|{}", content, placement, log.join(";")));
+        if i % 499 == 0 { ctx.sample(&format!("{:?} ({}): {:?}", content, placement, log)); }
+    }
+}
+
+fn retarget(op: &Op, n: usize) -> Op {
+    match op.clone() {
+        Op::Length { .. } => Op::Length { n }, Op::SubstringData { off, count, .. } => Op::SubstringData { n, off, count }, Op::DeleteData { off, count, .. } => Op::DeleteData { n, off, count },
+        Op::ReplaceData { off, count, data, .. } => Op::ReplaceData { n, off, count, data }, Op::InsertData { off, data, .. } => Op::InsertData { n, off, data }, Op::SplitText { off, .. } => Op::SplitText { n, off },
+        Op::AppendData { data, .. } => Op::AppendData { n, data }, Op::SetData { data, .. } => Op::SetData { n, data }, o => o,
+    }
+}
+
+fn classes(op: &Op, len: usize) -> (&'static str, &'static str) {
+    match op {
+        Op::SubstringData { off, count, .. } | Op::DeleteData { off, count, .. } | Op::ReplaceData { off, count, .. } => (off_class(*off, len), count_class(*off, *count, len)),
+        Op::InsertData { off, .. } | Op::SplitText { off, .. } => (off_class(*off, len), "-"),
+        _ => ("-", "-"),
+    }
+}
 /// replay of the witnesses of recorded DOM findings: Some(signature) if the defect is still there
 pub fn witness(prop: &str, f: &[String], _: &mut Ctx) -> Option<String> {
     let kind = f.first()?.as_str();
@@ -625,6 +781,15 @@ pub fn witness(prop: &str, f: &[String], _: &mut Ctx) -> Option<String> {
             let name = f.get(2)?.clone();
             let op = match f.get(1)?.as_str() { "pi" => Op::CreatePI { d: 0, target: name, data: "d".into() }, "entref" => Op::CreateEntRef { d: 0, name }, "element" => Op::CreateElement { d: 0, name }, "attribute" => Op::CreateAttribute { d: 0, name }, _ => return None };
             match pool.apply(&op) { Outcome::Err(E::InvalidCharacter) => None, Outcome::Ok(_) => Some(format!("{}/dom/{}/INVALID_CHARACTER/ok", prop, op.name())), Outcome::Err(e) => Some(format!("{}/dom/{}/INVALID_CHARACTER/{}", prop, op.name(), e.name())), Outcome::Panic(p) => Some(format!("{}/panic/{}", prop, p)) }
+        }
+        // fields: kind, document, text x, text y: two text nodes appended one after the other to the document element
+        "adjacent-text" => {
+            let root = (0..pool.h.len()).find(|&i| pool.h[i].kind == K::Element)?;
+            for t in [f.get(2)?, f.get(3)?] {
+                let i = match pool.apply(&Op::CreateText { d: 0, data: t.clone() }) { Outcome::Ok(Ret::Node(x)) => x.idx, _ => return None };
+                match pool.apply(&Op::AppendChild { p: root, c: i }) { Outcome::Ok(_) => {} _ => return None }
+            }
+            c15_eval(&d.dom).map(|(sig, _)| format!("{}/serial/{}", prop, sig))
         }
         // fields: kind, document with a DOCTYPE that declares an entity the content refers to
         "remove-doctype" => {
